@@ -344,60 +344,8 @@ def main(argv=None):
     return rc
 
 
-def _f1_short(cfg, sz):
-    """some level's even-extended length is smaller than the filter length"""
-    J = sz.get('J', 1)
-    pairs = []
-    if cfg.get('dim') == 1 or 'N' in sz and 'H' not in sz:
-        pairs.append((sz.get('N', sz.get('W')), 2 * sz.get('Lc2', sz.get('L2', 1))))
-    else:
-        lr = sz.get('Lr2') if (cfg.get('waveform') == 'tuple4' or 'cls' in cfg) else sz.get('Lc2', sz.get('L2', 1))
-        pairs += [(sz.get('H'), 2 * sz.get('Lc2', sz.get('L2', 1))), (sz.get('W'), 2 * (lr or 1))]
-    for n, L in pairs:
-        if n is None:
-            continue
-        if cfg.get('cls', '').startswith('SFB'):
-            n = 2 * n
-        for j in range(J):
-            if n + n % 2 < L:
-                return True
-            n = (n + 1) // 2
-    return False
-
-
-def _f2_region(cfg, sz):
-    m = cfg.get('mode')
-    if m in ('symmetric', 'reflect', 'periodic'):
-        return True
-    if m in ('per', 'periodization') and cfg.get('cls', '').startswith('AFB'):
-        return any(sz.get(k, 0) % 2 == 1 for k in ('N', 'H', 'W'))
-    return False
-
-
-def _f8_absent_level(cfg, sz):
-    return 'level' in (cfg.get('absent') or {})
-
-
-PREDS = {'f1_short': _f1_short, 'f2_region': _f2_region, 'f8_absent_level': _f8_absent_level,
-         'f11_tiny': lambda cfg, sz: sz.get('H') == 2 or sz.get('W') == 2}
-
-
-def _in_known(fl, findings):
-    for f in findings.values():
-        m = f.get('bounded_match')
-        if not m:
-            continue
-        if m.get('fn') and m['fn'] != fl['fn']:
-            continue
-        ok = True
-        for k, v in m.get('cfg', {}).items():
-            if fl['cfg'].get(k) not in (v if isinstance(v, list) else [v]):
-                ok = False
-        if ok and m.get('pred'):
-            ok = PREDS[m['pred']](fl['cfg'], fl['sizes'])
-        if ok:
-            return True
-    return False
+sys.path.insert(0, os.path.join(ROOT, 'native'))
+from known import in_known as _in_known, PREDS      # noqa: E402  (shared with native/replay.py)
 
 
 def _write_replay(prop, oid, spec):
